@@ -883,6 +883,19 @@ def prove(tier, seed):
     muts = [("XORGame.classical_value", "return self.to_nonlocal_game().classical_value()", "return self.to_nonlocal_game().nonsignaling_value()"),
             ("XORGame.nonsignaling_value", "return self.to_nonlocal_game().nonsignaling_value()", "return self.to_nonlocal_game().classical_value()")]
     out = prove_terms(["XORGame.classical_value", "XORGame.nonsignaling_value"], muts, "thorough", "c08t")
+    from props import C08_tab as T
+    from vt import extract
+
+    out["records"] = out["records"] + T.records()
+    out["functions"] = out["functions"] + [extract.Source(T.REL).info("XORGame.to_nonlocal_game")]
+    out["instances"] = (out.get("instances") or 0) + 1
+    pl = T.planted()
+    P = out["planted"]
+    for k in ("tried", "refuted"):
+        P[k] += pl[k]
+    for k in ("survivors", "anchors_missing", "detail"):
+        P[k] = list(P.get(k, [])) + pl[k]
+    out["selfchecks"]["planted_bugs_all_refuted"] = {"ok": P["tried"] == P["refuted"], "detail": P}
     gen = _cases_before_frames_c08
     for x in out["records"]:
         if x["status"] != "discharged":
@@ -892,7 +905,11 @@ def prove(tier, seed):
 
 _cases_before_frames_c08 = cases
 LEVEL_TEXT = LEVEL_TEXT + (" Proved (E1-term): XORGame.classical_value / nonsignaling_value are the values of the game's conversion to a general nonlocal game (the statement's "
-                           "'identical classical and non-signaling values'); that the conversion itself is right is a bounded clause (xor.conv_pred).")
+                           "'identical classical and non-signaling values'); and (E1-array with tabulation loops, all question-set sizes) XORGame.to_nonlocal_game builds the predicate V[a,b,x,y] = [pred[x,y] == a xor b] over the same "
+                           "distribution with the same number of repetitions (NonlocalGame's constructor by contract).")
+from props.C08_tab import ASSUMED as _TAB_ASSUMED  # noqa: E402
+
+ASSUMPTIONS = list(ASSUMPTIONS) + list(_TAB_ASSUMED)
 EXPLANATION = LEVEL_TEXT
 ENGINES = ["E1-pyvc"] + [e_ for e_ in globals().get("ENGINES", ["E3-E4-rtc"]) if e_ != "E1-pyvc"]
 
